@@ -142,7 +142,7 @@ impl Prop for C11 {
         let mut p = CallSetParams::standard(max_s, 12);
         p.allow_ploidy = true;
         p.allow_no_gt = true;
-        p.kind_w = [4, 3, 2, 3, 1, 1, 3, 3, 1, 1, 3, 2];
+        p.kind_w = [4, 3, 2, 3, 1, 1, 3, 3, 1, 1, 3, 2, 2, 3];
         if idx % 16 == 15 {
             p.allow_ploidy = false;
             let (callset, cfg) = gen::gen_callset(&mut rng, &p);
@@ -173,7 +173,7 @@ impl Prop for C11 {
             match rng.below(24) {
                 0 => {
                     items.push(Item::SourceError {
-                        contig: format!("chr{}", r.contig + 1),
+                        contig: callset.contig_name(r.contig),
                         pos: r.pos as usize,
                         kind: rng.below(5) as u8,
                     });
@@ -186,7 +186,7 @@ impl Prop for C11 {
                 _ => {}
             }
             items.push(Item::Rec {
-                contig: format!("chr{}", r.contig + 1),
+                contig: callset.contig_name(r.contig),
                 pos: r.pos as usize,
                 g: r.gts.iter().map(|g| if r.no_gt { crate::simgeno::G_MISSING } else { gt_to_g(g) }).collect(),
             });
@@ -521,6 +521,7 @@ fn run_l2(callset: &CallSet, cfg: &Config, split: usize, perm: &[usize], contain
             blocks: vec![],
             eof_marker: true,
             level: 6,
+        bcf_minor: 0,
         };
         gen::encode(&vcf, container, &layout).map(|x| x.0).unwrap_or(vcf)
     };
